@@ -47,6 +47,8 @@ func corpus(c *ctx) {
 	runAdv(c, "grp_moven_repeat", 1)     // seeded regression C07-8: MOVE run merged across a loop head
 	runAdv(c, "grp_moven_backlabel", 1)  // ... across a backward goto label
 	runAdv(c, "rk_self", 256)            // seeded regression C07-5: method name at constant index 256
+	runAdv(c, "rk_self_callrecv", 256)   // seeded regression C07-10: OP_SELF wrote R(A+1) before reading its key, which the
+	runAdv(c, "rk_self_strrecv", 257)    // compiler had loaded into R(A+1) (receiver a temporary, method name not RK-encodable)
 	runAdv(c, "grp_setlist_len", 25551)  // PropagateMV popped the block-number word (fixed: cd20660)
 	runAdv(c, "tfor_vars", 50)           // the seeded regression C07-4: five loop variables, empty body
 	runAdv(c, "loop_numfor", 140000)
@@ -66,8 +68,11 @@ func generated(c *ctx, r *lib.Rand, tier string) {
 			c.deferred = c.deferred[1:]
 		}
 		size := 25 + r.Intn(50)
-		src := genProgram(r.Fork(), size)
+		fr := r.Fork()
+		saved := *fr
+		src := genProgram(fr, size)
 		c.process(input{Kind: "src", Src: src, Run: true}, src, "gen", "generated", nil, nil)
+		c.twinsOf(i, saved, size, src)
 	}
 	for _, f := range c.deferred {
 		f()
